@@ -1335,7 +1335,6 @@ BINDINGS = {
         ('cast_distance_matrix_to_optimal_int_type', 'def cast_distance_matrix_to_optimal_int_type'),
         ('connected_components', 'from scipy.sparse.csgraph import connected_components'),
         ('determine_optimal_int_type', 'def determine_optimal_int_type'),
-        ('isinstance', 'builtin'),
         ('make_distance_matrix_from_adjacency_matrix', 'def make_distance_matrix_from_adjacency_matrix'),
         ('next', 'builtin'),
         ('np', 'import numpy as np'),
@@ -2537,6 +2536,13 @@ def report_broken(ctx, prop_files):
     return bt
 
 
+if __name__ == "__main__":
+    # run as a script, this file is the module `__main__`; the engines below import `harness.translator.py2lean` and register
+    # with THAT instance (importing them from here is a circular import): hand over to it
+    import sys
+    from harness.translator import py2lean as _registered
+    sys.exit(_registered.main(sys.argv[1:]))
+
 # the statement-level engine registers its files here (keys of STMT_KEYS are rendered by py2lean_stmt.render_file)
 STMT_KEYS = set()
 from . import py2lean_stmt  # noqa: E402
@@ -2586,14 +2592,15 @@ from . import py2lean_ghentry  # noqa: E402,F401
 from . import py2lean_plot  # noqa: E402,F401
 
 
-if __name__ == "__main__":
-    import sys
+def main(argv):
+    """`python -m harness.translator.py2lean [--expected] [root]`"""
     here = os.path.dirname(os.path.dirname(os.path.dirname(os.path.abspath(__file__))))
-    if "--expected" in sys.argv:
-        args = [a for a in sys.argv[1:] if a != "--expected"]
+    if "--expected" in argv:
+        args = [a for a in argv if a != "--expected"]
         print(expected_tables(args[0] if args else os.environ.get("PERSIM_ROOT", "/repo")))
-        sys.exit(0)
-    root = sys.argv[1] if len(sys.argv) > 1 else os.environ.get("PERSIM_ROOT", "/repo")
+        return 0
+    root = argv[0] if argv else os.environ.get("PERSIM_ROOT", "/repo")
     for k, v in generate(root, os.path.join(here, "lean")).items():
         print(k, v["output"], "rewritten" if v["rewritten"] else "unchanged",
               {f: i.get("error", "ok") for f, i in v["functions"].items()})
+    return 0
